@@ -336,7 +336,9 @@ class Spinner:
                 return call
 
             def run_function():
-                d = defer.maybeDeferred(function, *args, **kwargs)
+                # (Called through a closure: maybeDeferred(function, *args,
+                # **kwargs) would claim a keyword argument named 'f'.)
+                d = defer.maybeDeferred(lambda: function(*args, **kwargs))
                 d.addCallbacks(
                     during_this_run(self._got_success),
                     during_this_run(self._got_failure),
